@@ -1,7 +1,7 @@
 //! C04, C05, C06, C07 (+ the animator part of C08): state animator histories.
 
-use crate::desc::*;
-use crate::oracle::*;
+use mv_core::desc::*;
+use mv_core::oracle::*;
 use mina::prelude::*;
 use mv_engine::{Obs, Run};
 use mv_model::{exact32, step32, ulp32, AnimModel, Enter, Rep, Timing};
